@@ -31,7 +31,9 @@ import (
 
 func c12Hist(ic bool, pat string, lines [][]byte) string {
 	single := c12Match(ic, pat, lines, 1)
-	if !strings.HasPrefix(single, "ok") {
+	if !strings.HasPrefix(single, "ok") || strings.Contains(single, " a=0 ") {
+		// compile error – or a returned slice changed after its return (a recycled pool slice): that
+		// is the pool clause, reported by the plain answer, not a dependence on history
 		return single
 	}
 	want := []string{}
@@ -90,6 +92,11 @@ func c12HistLayout(r *Rand, p c12Pat, noisy bool) ([]byte, []int) {
 	var cols []int
 	if r.Chance(3, 4) {
 		line = append(line, val(10)...)
+	}
+	if r.Chance(1, 8) {
+		// longer than bytealg.MaxBruteForce: the real strings.Index takes its IndexByte-skip loop (and,
+		// with a noisy lead, the cut-over to the assembly routine) instead of the brute-force arm
+		line = append(line, val(60+r.Intn(120))...)
 	}
 	cols = append(cols, len(line))
 	line = append(line, p.pre...)
